@@ -69,6 +69,16 @@ var poolSrc = []string{
 	"Int", "Str", "Arr", "Obj", "BaseObj", "Map", "Func", "Iter", "Either", "Err", "ZeroDivisionErr", "FileNotFoundErr", "Kernel", "Nil", "Range", "Comparable",
 }
 
+// hooked: an object whose hooks (the properties built-ins call back: <=>, _incBy, S, B, ==, _iter, call, repr) are
+// functions written in the language (they take keyword arguments, run in a scope of their own, may be handed anything)
+func hooked(n int) string {
+	return fmt.Sprintf("{n: %d, '<=>: m{|o, strict: false| .n <=> o.n}, _incBy: m{|d, by: 1| {n: .n + d, **self}}, S: m{|sep: 0| \"hk\"}, B: m{|k: 0| true}, '==: m{|o, k: 0| true}, _iter: m{|k: 0| [1, 2]._iter}, call: m{|x, k: 0| x}, repr: m{|k: 0| \"HK\"}}", n)
+}
+
+func init() {
+	poolSrc = append(poolSrc, hooked(1), "("+hooked(1)+":"+hooked(4)+")", "("+hooked(1)+":"+hooked(5)+":2)", "("+hooked(4)+":"+hooked(1)+":-1)", "["+hooked(2)+", "+hooked(1)+"]", "%{"+hooked(1)+": 1}")
+}
+
 var smallPool = []string{"0", "Int.bear.new(0)", "1", "(-1)", `"a"`, "[1, 2, 3]", "{a: 1}", "nil", "{|x| x}", "(1:3)", "1.5", "%{1: 2}", "Int"}
 var smallPoolThorough = append(append([]string{}, smallPool...), "9223372036854775807", `""`, "[]", "true", "Str", "BaseObj", "1.try./(0)", "<{|i| yield i}>", "(nil:nil:nil)", "FileNotFoundErr", `"日本𝄞"`, "{}")
 
